@@ -86,6 +86,12 @@ def main(argv=None):
                 bcrash = traceback.format_exc(); bstats = {"violations": [], "evaluations": 0, "crashed": bcrash[-600:]}
                 print("checker crashed in the bounded tier:\n" + bcrash)
                 if not violations: return 3
+            try:
+                from vf.bounded import harness as _H
+                btimeouts = list(_H.TIMEOUTS)
+            except Exception:
+                btimeouts = []
+            bstats["timed_out_cases"] = btimeouts[:20]
             for v in bstats.get("violations", []):
                 k = match_known(known, a.prop, "B", signature=v.get("signature"))
                 if k: known_hits.append((k, v))
@@ -108,6 +114,8 @@ def main(argv=None):
         print(f"KNOWN-FINDING: property={a.prop} {k['id']}: {k['what']}")
     for u in undecided[:20]:
         print(f"UNDECIDED obligation={u['name'][:150]} reason={str(u.get('model'))[:160]}")
+    for t in (bstats or {}).get("timed_out_cases", [])[:10]:
+        print(f"UNDECIDED bounded-case={t[:200]} reason=did not finish within the per-case wall-clock limit (never counted as a violation)")
     rc = 0
     os.makedirs(os.path.join(ROOT, "replays", a.prop), exist_ok=True)
     for n, v in enumerate(violations):
